@@ -51,7 +51,12 @@ static std::vector<node> tree()
 	L("alt/lup","");
 	D("alt2"); R("alt2/f.txt");
 	D("www2"); R("www2/f.txt"); R("www2/index.html");
-	D("out"); R("out/f.txt"); R("out/index.html");
+	D("out"); R("out/f.txt"); R("out/index.html"); R("out/secret.html");
+	// directories whose index file is a symbolic link: to a file outside every root / to a file inside
+	D("www/ixo"); L("www/ixo/index.html","out/secret.html");
+	D("www/ixi"); L("www/ixi/index.html","www/d/f.txt");
+	D("alt/ixo"); L("alt/ixo/index.html","out/secret.html");
+	D("alt/ixi"); L("alt/ixi/index.html","alt/f.txt");
 	R("f.txt");
 	D("bl"); R("bl/f.txt"); R("bl/index.html");
 	#undef D
@@ -270,7 +275,10 @@ static std::vector<std::string> alphabet(std::string const &name)
 	}
 	else if(name=="full") {
 		F("d"); F("f.txt"); F("."); F(".."); F(""); F(".hid"); F("lin"); F("lout"); F("al"); F("al.."); F("alx"); F("lw2");
-		F("e"); F("index.html"); F("lfo"); F("sock"); F("b"); F("www2"); F("alt2"); F("s<&\"'"); F("sub"); F("lup"); F("..."); F("out");
+		F("e"); F("index.html"); F("lfo"); F("sock"); F("b"); F("www2"); F("alt2"); F("s<&\"'"); F("sub"); F("lup"); F("..."); F("out"); F("ixo"); F("ixi");
+	}
+	else if(name=="ix") {       // directories whose index.html is a symlink (to outside / to inside)
+		F("ixo"); F("ixi"); F("d"); F(".."); F(""); F("."); F("al"); F("index.html"); F("f.txt");
 	}
 	else if(name=="merge") {    // names that normalize_path can glue together
 		F("a"); F("l"); F("x"); F(".."); F("f.txt"); F("");
